@@ -72,7 +72,10 @@ def probes(regs):
 def gen_case(rng):
     kind = rng.choice(['normalised', 'normalised', 'edited', 'trained'])
     if kind == 'trained':
-        return {'kind': kind, 'train': trained.gen_train_case(rng, max_len_choices=(21,), coverages=(0.6, 1.0)), 'flags': {'skip_brute': rng.random() < 0.5}, 'hseed': rng.getrandbits(32)}
+        tr = trained.gen_train_case(rng, max_len_choices=(21,), coverages=(0.6, 1.0, 0.9))
+        if rng.random() < 0.5:
+            tr['alphabet'] = rng.choice([4, 5, 6, 8, 10])        # small alphabets: few or no complete n-gram chains, OMEN levels with little or no keyspace
+        return {'kind': kind, 'train': tr, 'flags': {'skip_brute': rng.random() < 0.3}, 'hseed': rng.getrandbits(32)}
     mg, xg = rng.choice([(1, 3), (2, 4), (2, 5)])
     spec = rulesets.gen_spec(rng, with_m=rng.random() < 0.4, n_base=rng.randint(1, 4), max_len=3, min_groups=mg, max_groups=xg, max_per_group=3,
                              pool=rng.choice(['counts', 'random', 'decimal', 'dyadic', 'equal']))
